@@ -1925,16 +1925,33 @@ fn propagate_section_attributes<'data, P: Platform>(
 ) {
     timing_phase!("Propagate section attributes");
 
+    // Merge the attributes of all groups before applying them. Applying them group by group would
+    // let the last group that contributes to an output section decide attributes such as
+    // `sh_entsize`, which would make the output depend on how files were partitioned into groups.
+    let mut merged: OutputSectionMap<Option<P::SectionAttributes>> =
+        output_sections.new_section_map();
+
     for group_state in group_states {
         group_state
             .common
             .section_attributes
             .for_each(|section_id, attributes| {
                 if let Some(attributes) = attributes {
-                    attributes.apply(output_sections, section_id);
+                    let slot = merged.get_mut(section_id);
+                    if let Some(existing) = slot {
+                        existing.merge(*attributes);
+                    } else {
+                        *slot = Some(*attributes);
+                    }
                 }
             });
     }
+
+    merged.for_each(|section_id, attributes| {
+        if let Some(attributes) = attributes {
+            attributes.apply(output_sections, section_id);
+        }
+    });
 }
 
 /// This is similar to computing start addresses, but is used for things that aren't addressable,
